@@ -268,7 +268,7 @@ def r2_two_maps(repo):
             gs = [(src(t), pol) for t, pol in flat_guards(st)]
             member = "%s in self._context[%s][%s]" % (name, ns, ent)
             extra = [x for x in gs if x[0] != member and
-                     x != ("%s not in self._context" % ns, False) and
+                     x != ("%s in self._context" % ns, True) and
                      not (x[0].endswith("in self._namespaces") and x[1])]
             ok = (member, True) in gs and not extra
             msg = "reverse delete guards %s (allowed: presence of the name, presence of the decl in _namespaces)" % gs
